@@ -301,8 +301,9 @@ def roundtrip(text, stoks, where):
 
 
 class Unit:
-    def __init__(self, root, repo=None, probe=False, only_probe_items=None):
+    def __init__(self, root, repo=None, probe=False, only_probe_items=None, force_registered=None):
         self.root = root
+        self.force_registered = dict(force_registered or {})   # item id -> reason: keep the registered copy of these items
         self.repo = repo or REPO
         self.probe = probe
         self.included = set()
@@ -389,7 +390,10 @@ class Unit:
             region = apply_renames(region, renames)
             segs, base, rewrites = parse_region(region, where)
         conflict = None
+        item_id = "%s :: %s" % (srcfile, ipath)
         try:
+            if item_id in self.force_registered and [b[0] for b in base] != [t for t, _ in stoks]:
+                raise ExtractError(self.force_registered[item_id])
             merged, changes = merge(segs, base, stoks, where)
         except ExtractError as ex:
             # The changed source cannot be merged into this region (edit inside a rewritten span / across an anchor).
@@ -445,8 +449,8 @@ class Unit:
         return text, trusted
 
 
-def generate(root, outdir, probe=False, repo=None):
-    u = Unit(root, repo=repo, probe=probe)
+def generate(root, outdir, probe=False, repo=None, force_registered=None):
+    u = Unit(root, repo=repo, probe=probe, force_registered=force_registered)
     u.process(root)
     text, trusted = u.render()
     name = os.path.splitext(os.path.basename(root))[0] + ("_probe" if probe else "")
